@@ -29,7 +29,7 @@ RULE = ("A Hypothesis RuleBasedStateMachine over a shared pool (2-3 shell object
         "arguments: every public integral / evaluation / density / stress / ESP / import function as a VALID call on the pooled "
         "objects; the same functions as deliberately INVALID calls (wrong shape, wrong dtype incl. non-numeric arrays, wrong "
         "length, bad notation / deriv_type / coordinate type, negative threshold, mismatched or non-symmetric density matrix); "
-        "set_param (new exps / coeffs / coord through the setters); renormalise (assign_norm_cont); set_errstate.  Invariants "
+        "set_param (new exps / coeffs / coord through the setters, or by changing in place the arrays the shell holds); renormalise (assign_norm_cont); set_errstate.  Invariants "
         "after EVERY step: byte-level snapshots of every pooled array/list and of every shell's coord, exps, coeffs, norm_cont, "
         "coord_type, angmom equal the model (which changes only through set_param / renormalise); numpy.geterr() equals what the "
         "machine last set, whether the call returned or raised; the value of a valid call equals the value of the same call on "
@@ -260,16 +260,26 @@ class World:
             if kind == "set_param":
                 i = st_["shell"] % len(self.shells)
                 d = dict(self.model[i])
+                inplace = bool(st_.get("inplace"))  # change the array the shell holds instead of assigning a new one
                 if st_["what"] == "exps":
                     d["exps"] = [e * st_["factor"] for e in d["exps"]]
-                    self.shells[i].exps = np.array(d["exps"], dtype=float)
+                    if inplace:
+                        self.shells[i].exps[:] = np.array(d["exps"], dtype=float)
+                    else:
+                        self.shells[i].exps = np.array(d["exps"], dtype=float)
                 elif st_["what"] == "coeffs":
                     d["coeffs"] = [[c * (1 + 0.5 * st_["factor"] * (k + 1) / (1 + k + m)) for m, c in enumerate(row)]
                                    for k, row in enumerate(d["coeffs"])]
-                    self.shells[i].coeffs = np.array(d["coeffs"], dtype=float)
+                    if inplace:
+                        self.shells[i].coeffs[:] = np.array(d["coeffs"], dtype=float)
+                    else:
+                        self.shells[i].coeffs = np.array(d["coeffs"], dtype=float)
                 else:
                     d["coord"] = [c + st_["factor"] - 1 for c in d["coord"]]
-                    self.shells[i].coord = np.array(d["coord"], dtype=float)
+                    if inplace:
+                        self.shells[i].coord[:] = np.array(d["coord"], dtype=float)
+                    else:
+                        self.shells[i].coord = np.array(d["coord"], dtype=float)
                 self.model[i] = d
                 self.snapshot = self.take()
                 self.pending = True
@@ -402,9 +412,10 @@ def machine(shard, report):
         def invalid(self, name):
             self.do({"rule": "invalid", "name": name})
 
-        @rule(shell=st.integers(0, 2), what=st.sampled_from(["exps", "coeffs", "coord"]), factor=st.sampled_from([0.5, 1.5, 2.0, 1.1]))
-        def set_param(self, shell, what, factor):
-            self.do({"rule": "set_param", "shell": shell, "what": what, "factor": factor})
+        @rule(shell=st.integers(0, 2), what=st.sampled_from(["exps", "coeffs", "coord"]), factor=st.sampled_from([0.5, 1.5, 2.0, 1.1]),
+              inplace=st.booleans())
+        def set_param(self, shell, what, factor, inplace):
+            self.do({"rule": "set_param", "shell": shell, "what": what, "factor": factor, "inplace": inplace})
 
         @rule(shell=st.integers(0, 2))
         def renormalise(self, shell):
